@@ -25,6 +25,16 @@ pub struct SchedOutcome {
 /// the successor's commit); otherwise the old writer is rolled back while its segment updater is
 /// parked inside `end_merge` (the task was accepted before the kill).
 pub fn stale_merge_schedule(rng: &mut Rng, dropped: bool) -> SchedOutcome {
+    stale_merge_schedule_mode(rng, if dropped { 1 } else { 0 })
+}
+
+/// mode 0 = rolled back while the old updater is parked inside `end_merge` (before it saves),
+/// mode 1 = writer dropped while the merge thread is parked,
+/// mode 2 = rolled back while the old updater is parked INSIDE its `save_metas`, after it has
+///          checked that it is alive (it resumes 300 ms later: either `rollback()` waited for
+///          it, or it must not replace meta.json any more once its successor has committed).
+pub fn stale_merge_schedule_mode(rng: &mut Rng, mode: u8) -> SchedOutcome {
+    let dropped = mode == 1;
     let mut out = SchedOutcome {
         forced: false,
         shape: String::new(),
@@ -62,7 +72,7 @@ pub fn stale_merge_schedule(rng: &mut Rng, dropped: bool) -> SchedOutcome {
     }
     // deletes committed while the merge runs: end_merge has a .del file to write for the merged
     // segment, which is where the old updater is parked in the rolled-back variant
-    let with_delete = !dropped || rng.bool();
+    let with_delete = mode == 0 || (mode == 1 && rng.bool());
     if with_delete {
         ex.step(&Op::DeleteTerm(Pred::Grp(0)));
         if rng.bool() {
@@ -71,8 +81,20 @@ pub fn stale_merge_schedule(rng: &mut Rng, dropped: bool) -> SchedOutcome {
         ex.step(&Op::Add(g.doc(rng, 2)));
         ex.step(&Op::Commit);
     }
+    let mut releaser = None;
     let (gate2, parked2) = if dropped {
         (gate1, true)
+    } else if mode == 2 {
+        // the first storage operation of save_metas after its is_alive check
+        let gate2 = mon.add_gate(OpPred::kind(OpKind::SyncDir).role("updater"), 0);
+        mon.release_gate(gate1);
+        let parked = mon.wait_parked(gate2, Duration::from_secs(5));
+        let mon2 = mon.clone();
+        releaser = Some(std::thread::spawn(move || {
+            std::thread::sleep(Duration::from_millis(300));
+            mon2.release_gate(gate2);
+        }));
+        (gate2, parked)
     } else {
         let gate2 = mon.add_gate(OpPred::kind(OpKind::OpenWrite).role("updater").fkind("del"), 0);
         mon.release_gate(gate1);
@@ -81,6 +103,8 @@ pub fn stale_merge_schedule(rng: &mut Rng, dropped: bool) -> SchedOutcome {
     out.counters.push(
         if dropped {
             "stale_merge:merge_thread_parked_across_writer_drop"
+        } else if mode == 2 {
+            if parked2 { "stale_merge:old_updater_parked_inside_save_metas" } else { "stale_merge:save_metas_gate_not_reached" }
         } else if parked2 {
             "stale_merge:old_updater_parked_in_end_merge"
         } else {
@@ -99,6 +123,9 @@ pub fn stale_merge_schedule(rng: &mut Rng, dropped: bool) -> SchedOutcome {
     }
     ex.step(&Op::Commit);
     let mut errs = ex.check_committed(true);
+    if let Some(r) = releaser.take() {
+        let _ = r.join();
+    }
     mon.release_gate(gate2);
     mon.release_all_gates();
     let outcome = match fut.wait() {
@@ -133,7 +160,11 @@ pub fn stale_merge_schedule(rng: &mut Rng, dropped: bool) -> SchedOutcome {
     out.forced = parked2;
     out.shape = format!(
         "{}:nseg={nseg}:{}:{outcome}",
-        if dropped { "writer-dropped" } else { "rolled-back" },
+        match mode {
+            1 => "writer-dropped",
+            2 => "rolled-back-inside-save_metas",
+            _ => "rolled-back",
+        },
         if with_delete { "delete-committed-during-merge" } else { "no-delete" }
     );
     out.problems = errs;
